@@ -403,11 +403,49 @@ func (w *c04World) Apply(op explore.Op) *explore.Fail {
 	if w.dead {
 		return nil
 	}
+	if fl := w.checkCompletion(); fl != nil {
+		return fl
+	}
 	switch w.cfg.mode {
 	case "recv", "tune", "loop":
 		return w.checkCredit(op.N)
 	}
 	return nil
+}
+
+// checkCompletion: once a send stream reports itself completed (the connection then forgets
+// it and never asks it for frames again) without having been reset, every byte the
+// application wrote before Close must have been acknowledged: anything still queued for
+// retransmission at that moment is lost for good, and the reader would never obtain every
+// byte although neither side reports an error (C01's clause, checked here at the component
+// that decides completion).
+func (w *c04World) checkCompletion() *explore.Fail {
+	if w.cfg.mode == "recv" || w.cfg.mode == "tune" {
+		return nil
+	}
+	for s := 0; s < 2; s++ {
+		if w.sndS.done(s) == 0 || w.cancelW[s] || !w.closedW[s] {
+			continue
+		}
+		for i := 0; i < w.written[s]; i++ {
+			if i >= len(w.ackedB[s]) || !w.ackedB[s][i] {
+				return explore.Failf("snd-completed-with-unacknowledged-data", "stream %d reported itself completed (FIN sent, nothing outstanding) although byte %d of the %d bytes written before Close was never acknowledged (retransmission queue: %d frames)", c04IDs[s], i, w.written[s], len(w.ss[s].retransmissionQueue))
+			}
+		}
+	}
+	return nil
+}
+
+// noteAcked records the bytes of an acknowledged STREAM frame.
+func (w *c04World) noteAcked(f *wire.StreamFrame) {
+	s := c04Idx(f.StreamID)
+	end := int(f.Offset) + len(f.Data)
+	for len(w.ackedB[s]) < end {
+		w.ackedB[s] = append(w.ackedB[s], false)
+	}
+	for i := int(f.Offset); i < end; i++ {
+		w.ackedB[s][i] = true
+	}
 }
 
 func (w *c04World) apply(op explore.Op) *explore.Fail {
@@ -481,6 +519,7 @@ func (w *c04World) apply(op explore.Op) *explore.Fail {
 			w.outcome = op.N + " " + w.outcome
 		}
 		if op.N == "deliver" {
+			w.noteAcked(f)
 			fl.sf.Handler.OnAcked(f)
 		} else {
 			fl.sf.Handler.OnLost(f)
